@@ -45,6 +45,7 @@ type WriteRec struct {
 	Err                 string
 	OK                  bool
 	NoSpace             bool
+	CtxEnded            bool // the call was given a context that had already ended
 }
 
 // Cfg of a trial.
@@ -59,8 +60,11 @@ type Cfg struct {
 	Procs     int
 	Entries   []int // allowed entry points (nil = all)
 	// Closer: 0 = the channel stays open; 1 = Close(err) from a user goroutine
-	// once all (early) writers returned; 2 = Close from a handler on the read loop.
+	// once all (early) writers returned; 2 = Close from a handler on the read loop;
+	// 3 = the parent context is cancelled and then Close(err) is called (Bootstrap.Shutdown's order).
 	Closer int
+	// NoCtxKinds: always hand context.Background() to CtxWrite1/CtxWritev.
+	NoCtxKinds bool
 	// LateWriters start writing at the moment Close is invoked (ids Writers..).
 	LateWriters int
 }
@@ -77,6 +81,11 @@ type History struct {
 	Wire     []byte
 	Unflush  int
 	Quiesced bool
+	// SenderSpins: the watchdog fired while a sender action was still running and the mark board shows the
+	// sender passing its loop head far more often than it handed anything to the transport: it cycles
+	// without draining the non-empty queue (a livelock: nothing will ever move the accepted payloads).
+	SenderSpins bool
+	SpinLoops   int
 	// WritersDone is false when the watchdog fired with write calls still blocked
 	// (their records are then incomplete and the history must not be judged).
 	WritersDone bool
@@ -86,6 +95,14 @@ type History struct {
 	CloseWallCall       time.Time
 	CloseErr            error
 }
+
+var cancelledCtx, expiredCtx = func() (context.Context, context.Context) {
+	c1, cancel := context.WithCancel(context.Background())
+	cancel()
+	c2, cancel2 := context.WithDeadline(context.Background(), time.Unix(1, 0))
+	_ = cancel2
+	return c1, c2
+}()
 
 // ErrTrialClose is the error trials close their channel with.
 var ErrTrialClose = errors.New("trial close")
@@ -172,6 +189,12 @@ func Run(cfg Cfg, rng *rand.Rand, watchdog time.Duration) *History {
 		opts.NoPark = true
 		opts.Handlers = []netty.Handler{&closeOnRead{h}}
 	}
+	var parentCancel context.CancelFunc
+	if cfg.Closer == 3 {
+		// the way Bootstrap.Shutdown closes channels: the parent context ends first, then Close is called
+		opts.Ctx, parentCancel = context.WithCancel(context.Background())
+		defer parentCancel()
+	}
 	rig := mon.NewRig(opts)
 	h.Rig = rig
 	var wg sync.WaitGroup
@@ -213,7 +236,10 @@ func Run(cfg Cfg, rng *rand.Rand, watchdog time.Duration) *History {
 		}
 		closed := make(chan struct{})
 		switch cfg.Closer {
-		case 1:
+		case 1, 3:
+			if parentCancel != nil {
+				parentCancel()
+			}
 			go func() {
 				defer close(closed)
 				h.CloseWallCall = time.Now()
@@ -247,6 +273,14 @@ func Run(cfg Cfg, rng *rand.Rand, watchdog time.Duration) *History {
 	// logical quiescence: only the read loop (action #0) may be outstanding
 	// (nothing at all once the channel was closed).
 	h.Quiesced = rig.Ex.WaitOutstanding(outstanding, watchdog)
+	if !h.Quiesced {
+		loops, writes, starts := rig.S.Count("sLoop"), rig.S.Count("tV0"), rig.Ex.Submitted()
+		// a correct sender hands at least one packet to the transport per loop iteration that finds the
+		// queue non-empty, and otherwise leaves the loop: iterations <= writes + activations + re-checks
+		if loops > 3*(writes+starts)+2000 {
+			h.SenderSpins, h.SpinLoops = true, loops
+		}
+	}
 	h.Ops, h.Wire = rig.T.Snapshot()
 	h.Unflush = rig.T.Unflushed()
 	return h
@@ -271,8 +305,25 @@ func writer(rig *mon.Rig, cfg Cfg, w int, rng *rand.Rand) []WriteRec {
 		p := buf[:size]
 		mon.FillPayload(p, w, seq)
 		rec := WriteRec{W: w, Seq: seq, Entry: entry, Size: size}
+		cctx := ctx
+		if (entry == ECtxWrite1 || entry == ECtxWritev) && !cfg.NoCtxKinds {
+			// context flavours: mostly live, sometimes already ended (the call may then be refused
+			// or - when the queue has room - accepted: either way the outcome must be consistent)
+			switch rng.Intn(8) {
+			case 0:
+				cctx = cancelledCtx
+				rec.CtxEnded = true
+			case 1:
+				cctx = expiredCtx
+				rec.CtxEnded = true
+			case 2:
+				var cancel context.CancelFunc
+				cctx, cancel = context.WithCancel(ctx)
+				defer cancel()
+			}
+		}
 		rec.Call = mon.Tick()
-		n, err := DoWrite(rig.Ch, ctx, entry, p, rng)
+		n, err := DoWrite(rig.Ch, cctx, entry, p, rng)
 		rec.Ret = mon.Tick()
 		Scribble(p)
 		rec.N = n
